@@ -734,6 +734,10 @@ static const Fixed CORPUS[] = {
   { "\xE2\x88\x80x\xE2\x88\x88" "D8 x=1", "fixed", false }, { "\xE2\x88\x80x\xE2\x88\x88" "D8 pr1(x)=1", "fixed", false }, { "D{x\xE2\x88\x88" "D8 | x\xE2\x88\x88X1}", "fixed", false },
   { "F1[\xE2\x88\x85, 1]", "fixed", false }, { "F1[\xE2\x88\x85, \xE2\x88\x85]", "fixed", false }, { "F1[X1, debool(X1)]", "fixed", false }, { "F1[Z, 1]", "fixed", false },
   { "F2[S1]", "fixed", false }, { "F2[\xE2\x88\x85]", "fixed", false }, { "F2[X1\xC3\x97\xE2\x84\xAC(X2)]", "fixed", false },
+  // the type of a recursion joins the type of the initial value (reported by seed agent C02: R{a:=X1 | 1=2 | ∅} was ℬ(R0))
+  { "R{a:=X1 | 1=2 | \xE2\x88\x85}", "K9:recursion-init-type", true }, { "R{a:=X1 | \xE2\x88\x85}", "K9:recursion-init-type", true },
+  { "\xE2\x88\x80x\xE2\x88\x88R{a:=X1 | 1=2 | \xE2\x88\x85} pr1(x)=x", "K9:recursion-init-type", true }, { "R{a:=S1 | 1=2 | \xE2\x88\x85}\xE2\x88\xAAX1", "K9:recursion-init-type", true },
+  { "R{a:=\xE2\x88\x85 | 1=2 | X1}", "fixed", false }, { "R{(a,b):=(X1,\xE2\x88\x85) | (\xE2\x88\x85, b)}", "K9:recursion-init-type", true },
   // template parameters that meet only the any-type (found through seeded change C03-1)
   { "F6[\xE2\x88\x85, \xE2\x88\x85]", "K8:template-any", true }, { "F6[\xE2\x88\x85, \xE2\x88\x85]\xE2\x88\xAAX1", "K8:template-any", true }, { "F6[\xE2\x88\x85, X1]", "fixed", false }, { "F6[X1, \xE2\x88\x85]", "fixed", false },
   { "F6[F6[\xE2\x88\x85, \xE2\x88\x85], X1]", "K8:template-any", true }, { "D7:==F6[\xE2\x88\x85, \xE2\x88\x85]", "K8:template-any", true }, { "F6[\xE2\x88\x85, \xE2\x88\x85]=X1", "K8:template-any", true },
